@@ -907,7 +907,11 @@ def doc_events(ctx, rnd, quick):
         keys = rnd.sample([0, 1, 2, 3, 4, 9, 10, 11, 12, 13, 16], rnd.randint(1, 5))
         if rnd.random() < 0.5:
             keys.sort()
-        return {k: [list(util.rand_perm(rnd, k)) for _ in range(rnd.randint(0, 3))] for k in keys}
+        doc = {k: [list(util.rand_perm(rnd, k)) for _ in range(rnd.randint(0, 3))] for k in keys}
+        for k in keys:
+            if k >= 11 and rnd.random() < 0.6:         # two permutations whose entries written one after the other read the same
+                doc[k] += [list(t) for t in util.digit_twins(rnd, k)]
+        return doc
 
     try:
         os.chdir(work)
